@@ -74,6 +74,14 @@ func TestPlan(t *testing.T) {
 		// the binary leg of the formatter properties: `spok --fmt` on generated files
 		p.Rule = "binary leg: generated spokfiles (random layouts, comments in every position, side-effect-free loading) formatted in place by `spok --fmt` in the sandbox; the file afterwards is parsed in-process and judged by the same projection as the in-process leg (C11: a second --fmt leaves it byte-identical). Non-trivial: the file changed; distinct by source"
 		binShards("^TestFmtBinary$", 8, 40, 16, 600)
+	case "C05":
+		// output globs through the CLI: --clean removes exactly the files the pattern denotes
+		p.Rule = "binary leg: project trees x spokfiles whose outputs are glob patterns only (incl. patterns whose matches are string-prefix siblings such as bin/app and bin/app.sha256); `spok --clean` must remove exactly the files the reference matcher says each pattern denotes"
+		binShards("^TestCleanGlobs$", 8, 40, 16, 500)
+	case "C14":
+		// the binary leg of C14: --force with explicitly and implicitly selected tasks (default task, clean task)
+		p.Rule = "binary leg: programs of 1-3 tasks (file dependencies, task dependencies) run once so that every task is cached, then run with --force selected by name, through the default task (`spok --force`) or through a user-defined clean task (`spok --clean --force`), optionally with --json/--quiet; every task of the closure must execute again and none be reported skipped"
+		binShards("^TestForceBinary$", 8, 40, 16, 400)
 	case "C13":
 		binShards("^TestVars$", 16, 150, 16, 1300)
 	case "C09":
@@ -86,6 +94,11 @@ func TestPlan(t *testing.T) {
 		p.Level = "fault_enumeration"
 		binShards("^TestKill$", 16, 25, 16, 350)
 		p.Shards = append(p.Shards, ev.ShardSpec{Name: "prefixes-0", Test: "^TestKillPrefixes$", TimeoutS: 3600})
+		sc := ev.RangeShards("syscalls", "^TestKillSyscalls$", 16, 1, nil)
+		for i := range sc {
+			sc[i].TimeoutS = 3600
+		}
+		p.Shards = append(p.Shards, sc...)
 	case "C12":
 		binShards("^TestClean$", 16, 60, 16, 1300)
 	case "C17":
@@ -98,9 +111,9 @@ func TestPlan(t *testing.T) {
 			sh[i].TimeoutS = 1200
 		}
 		p.Shards = append(p.Shards, sh...)
-		nb, cb := 4, 15
+		nb, cb := 8, 40
 		if ev.Thorough() {
-			nb, cb = 8, 60
+			nb, cb = 16, 300
 		}
 		bs := ev.RapidShards("binary", "^TestFindBinary$", nb, cb, nil)
 		p.Shards = append(p.Shards, bs...)
@@ -222,6 +235,12 @@ func TestReplay(t *testing.T) {
 
 func replayOther(t *testing.T, v ev.Violation, raw []byte) *rp.Fail {
 	switch v.Kind {
+	case "force":
+		var c ForceCase
+		if err := json.Unmarshal(raw, &c); err != nil {
+			t.Fatal(err)
+		}
+		return execForce(nil, newBox(t), c)
 	case "fmtbin":
 		var c FmtCase
 		if err := json.Unmarshal(raw, &c); err != nil {
@@ -284,6 +303,7 @@ func TestFindBinary(t *testing.T) {
 		}
 		c.Start = rapid.IntRange(0, d-1).Draw(rt, "start")
 		c.Stop = rapid.IntRange(-1, d-1).Draw(rt, "stop")
+		c.ViaSymlink = c.Stop >= 0 && c.Stop <= c.Start && rapid.Bool().Draw(rt, "via_symlink")
 		return c
 	}, func(c FindCase) *rp.Fail {
 		s.Class("space_binary")
@@ -307,7 +327,21 @@ func execFindBinary(s *ev.Shard, b *sandbox.Box, c FindCase) *rp.Fail {
 	if c.Stop >= 0 {
 		stop = dirs[c.Stop]
 	}
-	res := b.Run(dirs[c.Start], []string{"HOME=" + stop}, 20*time.Second, "--show")
+	cwd := dirs[c.Start]
+	if c.ViaSymlink {
+		// $HOME is reached through a link; the shell's logical working directory keeps that spelling
+		link := filepath.Join(base, "homelink")
+		if err := os.Symlink(stop, link); err != nil {
+			return &rp.Fail{Sig: "harness", Msg: err.Error()}
+		}
+		relToStop, err := filepath.Rel(stop, cwd)
+		if err != nil {
+			return &rp.Fail{Sig: "harness", Msg: err.Error()}
+		}
+		stop, cwd = link, filepath.Join(link, relToStop)
+		_ = os.Lchown(link, 65534, 65534)
+	}
+	res := b.Run(cwd, []string{"HOME=" + stop, "PWD=" + cwd}, 20*time.Second, "--show")
 	size := len(c.Cfg)*3 + c.Start
 	desc := fmt.Sprintf("chain %v children %v: `spok --show` with cwd = level %d and HOME = %s", c.Cfg, c.Child, c.Start, rel(base, stop))
 	if res.TimedOut {
@@ -328,6 +362,11 @@ func execFindBinary(s *ev.Shard, b *sandbox.Box, c FindCase) *rp.Fail {
 		}
 		return "", false
 	}
+	if found != "" {
+		if r, err := filepath.EvalSymlinks(found); err == nil {
+			found = r
+		}
+	}
 	within := c.Stop >= 0 && c.Stop <= c.Start
 	if within {
 		want, ok := nearest(c.Stop)
@@ -343,9 +382,50 @@ func execFindBinary(s *ev.Shard, b *sandbox.Box, c FindCase) *rp.Fail {
 		}
 	}
 	if s != nil {
-		s.NonTrivial("bin" + fmt.Sprint(c.Cfg, c.Child, c.Start, c.Stop))
+		s.NonTrivial("bin" + fmt.Sprint(c.Cfg, c.Child, c.Start, c.Stop, c.ViaSymlink))
+		if c.ViaSymlink {
+			s.Class("home_through_symlink")
+		}
 	}
 	return nil
+}
+
+func TestCleanGlobs(t *testing.T) {
+	s := ev.Open(t, "C05")
+	b := newBox(t)
+	rp.Check(t, s, "clean", func(rt *rapid.T) CleanCase {
+		c := genClean(rt)
+		c.Literal, c.Named, c.CleanTask = nil, nil, false
+		var globs []string
+		for _, g := range c.Globs {
+			if g != "s*" && g != "*" { // they match the spokfile itself: C12's subject
+				globs = append(globs, g)
+			}
+		}
+		if len(globs) == 0 {
+			globs = []string{"b*/*"}
+		}
+		c.Globs = globs
+		return c
+	}, func(c CleanCase) *rp.Fail {
+		s.Class("space_binary_clean_globs")
+		if s.WantSample() {
+			s.Sample(map[string]any{"spokfile": c.source(), "tree": c.Tree})
+		}
+		return execClean(s, b, c)
+	})
+}
+
+func TestForceBinary(t *testing.T) {
+	s := ev.Open(t, "C14")
+	b := newBox(t)
+	rp.Check(t, s, "force", genForce, func(c ForceCase) *rp.Fail {
+		s.Class("space_binary_force")
+		if s.WantSample() {
+			s.Sample(map[string]any{"spokfile": c.source(), "via": c.Via, "extra_flags": c.Extra})
+		}
+		return execForce(s, b, c)
+	})
 }
 
 func TestFmtBinary(t *testing.T) {
@@ -462,6 +542,68 @@ func TestKillPrefixes(t *testing.T) {
 				steps = append(steps, run("A", "B"))
 				s.Class("enumerated_cache_prefix")
 				one(KillCase{Tasks: prog, Init: init, Steps: steps})
+			}
+		}
+	}
+	if s.Failed() {
+		t.Fatal("violations recorded")
+	}
+}
+
+// TestKillSyscalls: kill -9 on entering the N-th openat / write / rename / mkdir / unlink
+// system call of a run, for every N until the run survives — crash points between any two
+// file-system operations of spok (strace fault injection) — each followed by continuations
+// of edits/reverts and an unforced run.
+func TestKillSyscalls(t *testing.T) {
+	s := ev.Open(t, "C10")
+	if stracePath == "" {
+		s.Note("strace not available: system-call level crash points skipped")
+		s.Eval()
+		return
+	}
+	b := newBox(t)
+	progs := [][]KTask{
+		{{Name: "A", Files: []string{"f1.txt"}}, {Name: "B", Files: []string{"f2.txt"}}},
+		{{Name: "A", Files: []string{"f1.txt"}, Deps: []string{"B"}}, {Name: "B", Globs: []string{"*.txt"}}},
+	}
+	init := map[string]string{"f1.txt": "0", "f2.txt": "0"}
+	run := func(tasks ...string) KStep { return KStep{Op: "run", Tasks: tasks, CutAbs: -1} }
+	w := func(f, c string) KStep { return KStep{Op: "write", File: f, Content: c, CutAbs: -1} }
+	conts := [][]KStep{{}, {w("f1.txt", "0")}, {w("f2.txt", "1")}, {w("f1.txt", "0"), w("f2.txt", "0")}}
+	if !ev.Thorough() {
+		conts = conts[:2]
+	}
+	lo, hi := ev.RangeFromEnv() // index into (program, syscall)
+	sysNames := []string{"openat", "write", "renameat", "renameat2", "mkdirat", "unlinkat", "fsync", "close"}
+	seen := map[string]bool{}
+	for idx := lo; idx < hi && idx < uint64(len(progs)*len(sysNames)); idx++ {
+		prog, sys := progs[idx/uint64(len(sysNames))], sysNames[idx%uint64(len(sysNames))]
+		for n := 1; n <= 400; n++ {
+			killedAny := false
+			for ci, cont := range conts {
+				steps := []KStep{run("A", "B"), w("f1.txt", "1"), w("f2.txt", "2"), {Op: "run", Tasks: []string{"A", "B"}, Sys: sys, When: n, CutAbs: -1}}
+				steps = append(steps, cont...)
+				steps = append(steps, run("A", "B"))
+				c := KillCase{Tasks: prog, Init: init, Steps: steps}
+				s.Eval()
+				s.Class("enumerated_syscall_crash_point")
+				if n == 3 && ci == 0 {
+					s.Sample(map[string]any{"spokfile": c.source(), "steps": c.Steps})
+				}
+				f := execKill(s, b, c)
+				// lastRunKilled belongs to the final (unkilled) run; find out from the step under strace instead
+				if f != nil {
+					if s.IsKnown(f.Sig) {
+						s.Known(f.Sig, c)
+					} else if !seen[f.Sig] {
+						seen[f.Sig] = true
+						s.Violation("kill", f.Sig, f.Msg, f.Size, c)
+					}
+				}
+				killedAny = killedAny || killedAtStep
+			}
+			if !killedAny {
+				break // n is beyond the last call of this kind
 			}
 		}
 	}
